@@ -71,3 +71,199 @@ Proof. intros Hn H.
   - discriminate.
   - unfold interface_toks. rewrite p_item_interface, Hp. reflexivity.
   - cbn [decl_of]. rewrite str_eqb_refl, Hk. reflexivity. Qed.
+
+(* ------------------------------------------------------------------ export type N = "a" | "b" ; *)
+Lemma lexes_lit (P0 : str -> Prop) (s : str) (ts : list tk) (k : nat) :
+  k <= List.length s -> (forall r f, lexm (k + f) (s ++ r) = ts ++ lexm f r) -> lexes P0 s ts.
+Proof. intros Hk H r f _ Hf. rewrite app_length in Hf. exists (f - k). split; [lia|].
+  replace f with (k + (f - k)) at 1 by lia. apply H. Qed.
+
+Lemma lex_union_join names : names <> [] -> lexes T (join (L " | ") (map quoted_code names)) (union_toks names).
+Proof. induction names as [|n l IH]; [congruence|]. intros _. destruct l as [|n2 l].
+  - cbn [map join union_toks flat_map]. rewrite quoted_is_literal. apply lexes_literal.
+  - change (join (L " | ") (map quoted_code (n :: n2 :: l))) with (quoted_code n ++ " " :: "|" :: " " :: join (L " | ") (map quoted_code (n2 :: l))).
+    change (union_toks (n :: n2 :: l)) with ([KStr DQ (escape_js n)] ++ P "|" :: union_toks (n2 :: l)).
+    apply (lexes_app T T); [rewrite quoted_is_literal; apply lexes_literal| |intros; exact I].
+    apply lexes_cons_ws; [reflexivity|].
+    apply (lexes_cons_tok T "|" (" " :: join (L " | ") (map quoted_code (n2 :: l)))); [intros f r; apply lex_bar_sp|].
+    apply lexes_cons_ws; [reflexivity|]. apply IH. discriminate. Qed.
+Lemma clean_union names : forallb clean_tk (union_toks names) = true.
+Proof. destruct names as [|n l]; [reflexivity|]. cbn [union_toks forallb clean_tk andb]. induction l as [|m l IH]; [reflexivity|]. cbn [flat_map app forallb clean_tk P andb]. exact IH. Qed.
+
+Definition alias_toks (n : str) (names : list str) : list tk :=
+  KId (L "export") :: KId (L "type") :: KId n :: P "=" :: union_toks names ++ [P ";"].
+Lemma p_item_alias name r :
+  p_item (KId (L "export") :: KId (L "type") :: KId name :: P "=" :: r) =
+  match ptype r with
+  | Some (t, r5) => match expect ";" r5 with Some r6 => Some (ITypeAlias name [] t, r6) | None => None end
+  | None => None end.
+Proof. reflexivity. Qed.
+Lemma lex_alias n names : ident n = true -> names <> [] -> lexes T (alias_text n names) (alias_toks n names).
+Proof. intros Hn Hne. unfold alias_text, alias_toks.
+  change (L "export type " ++ n ++ L " = " ++ join (L " | ") (map quoted_code names) ++ L ";")
+    with (L "export" ++ " " :: L "type" ++ " " :: n ++ L " = " ++ join (L " | ") (map quoted_code names) ++ L ";").
+  change (KId (L "export") :: KId (L "type") :: KId n :: P "=" :: union_toks names ++ [P ";"])
+    with ([KId (L "export")] ++ [KId (L "type")] ++ [KId n] ++ [P "="] ++ union_toks names ++ [P ";"]).
+  apply (lexes_app bnd T); [apply lexes_ident; [reflexivity|auto]| |intros r _; reflexivity].
+  apply lexes_cons_ws; [reflexivity|].
+  apply (lexes_app bnd T); [apply lexes_ident; [reflexivity|auto]| |intros r _; reflexivity].
+  apply lexes_cons_ws; [reflexivity|].
+  apply (lexes_app bnd T); [apply lexes_ident; [exact Hn|auto]| |intros r _; reflexivity].
+  apply (lexes_app T T); [apply (lexes_lit T _ _ 3); [cbn; lia|intros r f; reflexivity]| |intros; exact I].
+  apply (lexes_app T T); [apply lex_union_join; exact Hne|apply (lexes_single T ";"); reflexivity|intros; exact I]. Qed.
+
+Theorem read_alias n names : ident n = true -> names <> [] ->
+  read_keys n (alias_text n names) = Some [DLiterals names].
+Proof. intros Hn Hne. destruct (union_reads_back names [] Hne) as [t [Hp Hl]].
+  apply (read_one n _ (alias_toks n names) (ITypeAlias n [] t)).
+  - apply lex_alias; assumption.
+  - unfold alias_toks. cbn [forallb clean_tk P andb]. rewrite forallb_app, clean_union. reflexivity.
+  - discriminate.
+  - unfold alias_toks. rewrite p_item_alias, Hp. reflexivity.
+  - cbn [decl_of]. rewrite str_eqb_refl, Hl. reflexivity. Qed.
+
+(* ------------------------------------------------------------------ export const NSchema = z.m( <object or array> ); *)
+Lemma body_chain_start rec r :
+  p_expr_body rec (KId (L "z") :: P "." :: r) = p_ops rec (S (List.length (P "." :: r))) (EId (L "z")) (P "." :: r).
+Proof. reflexivity. Qed.
+Lemma p_ops_dot rec n e s r : p_ops rec (S n) e (P "." :: KId s :: r) = p_ops rec n (EMember e s false) r.
+Proof. reflexivity. Qed.
+Lemma p_ops_call rec n e r : p_ops rec (S n) e (P "(" :: r) =
+  match p_exlist rec ")" (S (List.length r)) r [] with Some (args, r1) => p_ops rec n (ECall e [] args) r1 | None => None end.
+Proof. reflexivity. Qed.
+Lemma p_ops_semi rec n e : p_ops rec n e [P ";"] = Some (e, [P ";"]).
+Proof. destruct n; reflexivity. Qed.
+Lemma p_ops_close rec n e r : p_ops rec n e (P ")" :: r) = Some (e, P ")" :: r).
+Proof. destruct n; reflexivity. Qed.
+Lemma p_exlist_one rec n c0 l a r : tk_is ")" c0 = false -> tk_is "," c0 = false -> tk_is "..." c0 = false ->
+  rec (c0 :: l) = Some (a, P ")" :: r) -> p_exlist rec ")" (S (S n)) (c0 :: l) [] = Some ([a], r).
+Proof. intros H1 H2 H3 Hr. cbn [p_exlist]. rewrite H1, H2, H3, Hr. tks. reflexivity. Qed.
+
+Lemma body_zcall rec m c0 Y a : tk_is ")" c0 = false -> tk_is "," c0 = false -> tk_is "..." c0 = false ->
+  rec (c0 :: Y) = Some (a, [P ")"; P ";"]) ->
+  p_expr_body rec (KId (L "z") :: P "." :: KId m :: P "(" :: c0 :: Y) = Some (ECall (EMember (EId (L "z")) m false) [] [a], [P ";"]).
+Proof. intros H1 H2 H3 Hr. rewrite body_chain_start. cbn [List.length]. rewrite p_ops_dot, p_ops_call. cbn [List.length].
+  rewrite (p_exlist_one rec _ c0 Y a [P ";"] H1 H2 H3 Hr). apply p_ops_semi. Qed.
+
+Lemma p_expr_braced f c0 l a r : (c0 = P "{" \/ c0 = P "[") ->
+  p_atom (p_expr f) (c0 :: l) = Some (a, P ")" :: r) -> p_expr (S f) (c0 :: l) = Some (a, P ")" :: r).
+Proof. intros Hc H. cbn [p_expr]. unfold p_expr_body. destruct Hc as [-> | ->]; tks; rewrite H; apply p_ops_close. Qed.
+
+Lemma p_item_const name r :
+  p_item (KId (L "export") :: KId (L "const") :: KId name :: P "=" :: r) =
+  match p_expr_body (p_expr 63) r with
+  | Some (e, r4) => match expect ";" r4 with Some r5 => Some (IConst name e, r5) | None => None end
+  | None => None end.
+Proof. reflexivity. Qed.
+
+Lemma p_item_zcall name m c0 Y a : (c0 = P "{" \/ c0 = P "[") ->
+  p_atom (p_expr 62) (c0 :: Y) = Some (a, [P ")"; P ";"]) ->
+  p_item (KId (L "export") :: KId (L "const") :: KId name :: P "=" :: KId (L "z") :: P "." :: KId m :: P "(" :: c0 :: Y)
+  = Some (IConst name (ECall (EMember (EId (L "z")) m false) [] [a]), []).
+Proof. intros Hc H. rewrite p_item_const.
+  rewrite (body_zcall (p_expr 63) m c0 Y a); [reflexivity| | | |apply (p_expr_braced 62 c0 Y a [P ";"] Hc H)];
+  destruct Hc as [-> | ->]; reflexivity. Qed.
+
+Lemma ident_schema n : ident n = true -> ident (schema_name n) = true.
+Proof. unfold schema_name, ident. destruct n as [|c r]; [discriminate|]. cbn [app]. intros H. apply andb_true_iff in H as [H1 H2].
+  rewrite H1, forallb_app, H2. reflexivity. Qed.
+
+Lemma lex_const_header n (m : string) c0 body btoks : ident n = true -> single c0 = true ->
+  7 <= List.length (L " = z." ++ L m ++ ["("]) ->
+  (forall r f, lexm (7 + f) (L " = z." ++ L m ++ "(" :: r) = [P "="; KId (L "z"); P "."; KId (L m); P "("] ++ lexm f r) ->
+  lexes T body btoks ->
+  lexes T (L "export const " ++ n ++ L "Schema = z." ++ L m ++ "(" :: c0 :: body)
+          (KId (L "export") :: KId (L "const") :: KId (schema_name n) :: P "=" :: KId (L "z") :: P "." :: KId (L m) :: P "(" :: KP [c0] :: btoks).
+Proof. intros Hn Hc Hlen Hm Hb.
+  replace (L "export const " ++ n ++ L "Schema = z." ++ L m ++ "(" :: c0 :: body)
+    with (L "export" ++ " " :: L "const" ++ " " :: schema_name n ++ (L " = z." ++ L m ++ ["("]) ++ c0 :: body)
+    by (unfold schema_name; cbn [L list_ascii_of_string app]; rewrite <- !app_assoc; reflexivity).
+  change (KId (L "export") :: KId (L "const") :: KId (schema_name n) :: P "=" :: KId (L "z") :: P "." :: KId (L m) :: P "(" :: KP [c0] :: btoks)
+    with ([KId (L "export")] ++ [KId (L "const")] ++ [KId (schema_name n)] ++ [P "="; KId (L "z"); P "."; KId (L m); P "("] ++ KP [c0] :: btoks).
+  apply (lexes_app bnd T); [apply lexes_ident; [reflexivity|auto]| |intros r _; reflexivity].
+  apply lexes_cons_ws; [reflexivity|].
+  apply (lexes_app bnd T); [apply lexes_ident; [reflexivity|auto]| |intros r _; reflexivity].
+  apply lexes_cons_ws; [reflexivity|].
+  apply (lexes_app bnd T); [apply lexes_ident; [apply ident_schema; exact Hn|auto]| |intros r _; reflexivity].
+  apply (lexes_app T T); [| |intros; exact I].
+  - apply (lexes_lit T _ _ 7); [exact Hlen|]. intros r f. rewrite <- !app_assoc. apply Hm.
+  - apply (lexes_cons_single T c0); assumption. Qed.
+
+Lemma is_z_call_same (m : string) args : is_z_call m (ECall (EMember (EId (L "z")) (L m) false) [] args) = Some args.
+Proof. unfold is_z_call. rewrite !str_eqb_refl. reflexivity. Qed.
+Lemma enum_not_object args : is_z_call "object" (ECall (EMember (EId (L "z")) (L "enum") false) [] args) = None.
+Proof. reflexivity. Qed.
+
+(* ------------------------------------------------------------------ export const NSchema = z.object({ props }); *)
+Definition zobject_toks (n : str) (l : list (member * (list tk * ex))) : list tk :=
+  KId (L "export") :: KId (L "const") :: KId (schema_name n) :: P "=" :: KId (L "z") :: P "." :: KId (L "object") :: P "(" :: P "{"
+  :: flat_map ptoks l ++ [P "}"; P ")"; P ";"].
+Definition prop_ok (x : member * (list tk * ex)) : Prop :=
+  key_choice_ok x /\ lexes comma_next (m_value (fst x)) (fst (snd x)) /\ reads (p_expr 62) "," x /\ forallb clean_tk (fst (snd x)) = true.
+Theorem read_zobject n (l : list (member * (list tk * ex))) : ident n = true -> Forall prop_ok l ->
+  read_keys n (zobject_text n (map fst l)) = Some [DZObject (map m_name (map fst l))].
+Proof. intros Hn H.
+  assert (Forall (fun x => key_choice_ok x /\ lexes comma_next (m_value (fst x)) (fst (snd x))) l) as H1
+    by (eapply Forall_impl; [|exact H]; intros x (A1 & A2 & A3 & A4); tauto).
+  assert (Forall (fun x => key_choice_ok x /\ reads (p_expr 62) "," x) l) as H2
+    by (eapply Forall_impl; [|exact H]; intros x (A1 & A2 & A3 & A4); tauto).
+  destruct (zobject_props_read (p_expr 62) l [P ")"; P ";"] H2) as [Hp Hk].
+  apply (read_one n _ (zobject_toks n l) (IConst (schema_name n) (ECall (EMember (EId (L "z")) (L "object") false) [] [EObj (map prop_of l)]))).
+  - unfold zobject_text, zobject_toks.
+    change (L "export const " ++ n ++ L "Schema = z.object({" ++ zobject_body (map fst l))
+      with (L "export const " ++ n ++ L "Schema = z." ++ L "object" ++ "(" :: "{" :: zobject_body (map fst l)).
+    apply (lex_const_header n "object" "{"); [exact Hn|reflexivity|cbn; lia|intros r f; reflexivity|].
+    apply lex_zobject_body. exact H1.
+  - unfold zobject_toks. cbn [forallb clean_tk P andb]. rewrite forallb_app. cbn [forallb clean_tk P andb]. rewrite andb_true_r.
+    apply clean_flat. intros x Hx. rewrite Forall_forall in H. destruct (H x Hx) as (_ & _ & _ & Hc).
+    unfold ptoks. cbn [forallb clean_tk P andb]. rewrite clean_key_tok, forallb_app, Hc. reflexivity.
+  - discriminate.
+  - unfold zobject_toks. apply p_item_zcall; [left; reflexivity|exact Hp].
+  - cbn [decl_of]. rewrite str_eqb_refl, is_z_call_same, Hk. reflexivity. Qed.
+
+(* ------------------------------------------------------------------ export const NSchema = z.enum([ literals ]); *)
+Definition zenum_toks (n : str) (names : list str) : list tk :=
+  KId (L "export") :: KId (L "const") :: KId (schema_name n) :: P "=" :: KId (L "z") :: P "." :: KId (L "enum") :: P "(" :: P "["
+  :: arr_toks (map escape_js names) ++ [P "]"; P ")"; P ";"].
+Lemma clean_arr bodies : forallb clean_tk (arr_toks bodies) = true.
+Proof. induction bodies as [|b [|b2 l] IH]; [reflexivity|reflexivity|].
+  change (arr_toks (b :: b2 :: l)) with (KStr DQ b :: P "," :: arr_toks (b2 :: l)). cbn [forallb clean_tk P andb]. exact IH. Qed.
+Theorem read_zenum n names : ident n = true -> names <> [] ->
+  read_keys n (zenum_text n names) = Some [DZEnum names].
+Proof. intros Hn Hne.
+  destruct (zenum_array_read (p_expr 62) names [P ")"; P ";"] (p_expr_lit 61)) as [Hp Hk].
+  apply (read_one n _ (zenum_toks n names) (IConst (schema_name n) (ECall (EMember (EId (L "z")) (L "enum") false) [] [EArr (map (EStr DQ) (map escape_js names))]))).
+  - unfold zenum_text, zenum_toks.
+    change (L "export const " ++ n ++ L "Schema = z.enum([" ++ zenum_list names ++ L "]);")
+      with (L "export const " ++ n ++ L "Schema = z." ++ L "enum" ++ "(" :: "[" :: zenum_list names ++ L "]);").
+    apply (lex_const_header n "enum" "["); [exact Hn|reflexivity|cbn; lia|intros r f; reflexivity|].
+    apply (lexes_app T T); [apply lex_zenum_list|apply (lexes_lit T _ _ 3); [cbn; lia|intros r f; reflexivity]|intros; exact I].
+  - unfold zenum_toks. cbn [forallb clean_tk P andb]. rewrite forallb_app, clean_arr. reflexivity.
+  - discriminate.
+  - unfold zenum_toks. apply p_item_zcall; [right; reflexivity|exact Hp].
+  - cbn [decl_of]. rewrite str_eqb_refl, enum_not_object, is_z_call_same.
+    destruct names as [|a names']; [congruence|]. cbn [map]. cbn [map] in Hk. rewrite Hk. reflexivity. Qed.
+
+(* ------------------------------------------------------------------ instances *)
+Lemma ex_members_file : Forall member_ok ex_members.
+Proof. pose proof ex_members_ok as H. unfold ex_members in *. 
+  repeat match goal with |- Forall _ (_ :: _) => constructor | |- Forall _ [] => constructor end;
+  match goal with |- member_ok ?x => 
+    let Hx := fresh in assert (In x ex_members) as Hx by (unfold ex_members; cbn; tauto);
+    destruct (proj1 (Forall_forall _ _) ex_members_ok x Hx) as (A1 & A2 & A3); repeat split; try assumption; reflexivity end. Qed.
+Lemma ex_props_file : Forall prop_ok ex_props.
+Proof. unfold ex_props.
+  repeat match goal with |- Forall _ (_ :: _) => constructor | |- Forall _ [] => constructor end;
+  match goal with |- prop_ok ?x => 
+    let Hx := fresh in assert (In x ex_props) as Hx by (unfold ex_props; cbn; tauto);
+    destruct (proj1 (Forall_forall _ _) ex_props_ok x Hx) as (A1 & A2 & A3); repeat split; try assumption; reflexivity end. Qed.
+Lemma ex_files :
+  read_keys (L "T0") (interface_text (L "T0") (map fst ex_members)) = Some [DInterface [L "user-id"; L "firstName"; L "a""b\c"]] /\
+  read_keys (L "T0") (zobject_text (L "T0") (map fst ex_props)) = Some [DZObject [L "user-id"; L "firstName"]] /\
+  read_keys (L "T0") (alias_text (L "T0") [L "IN_PROGRESS"; L "a\"; L "x""y"]) = Some [DLiterals [L "IN_PROGRESS"; L "a\"; L "x""y"]] /\
+  read_keys (L "T0") (zenum_text (L "T0") [L "IN_PROGRESS"; L "a\"; L "x""y"]) = Some [DZEnum [L "IN_PROGRESS"; L "a\"; L "x""y"]].
+Proof. split; [|split; [|split]].
+  - apply (read_interface (L "T0") ex_members eq_refl ex_members_file).
+  - apply (read_zobject (L "T0") ex_props eq_refl ex_props_file).
+  - apply read_alias; [reflexivity|discriminate].
+  - apply read_zenum; [reflexivity|discriminate]. Qed.
